@@ -187,16 +187,17 @@ theorem act_mul_bit (T : σ → σ) (a b : Nat) (hb : b < 2) (s : σ) :
   rcases this with rfl | rfl <;> simp
 
 /-- `act` of a word followed by a higher part: `j + 2^w·rest`, `j < 2^w`. -/
-theorem act_append (hT : IsAdd T) (w j rest : Nat) (hj : j < 2 ^ w) (s : σ) :
+theorem act_append (T : σ → σ) (w j rest : Nat) (hj : j < 2 ^ w) (s : σ) :
     act T (j + 2 ^ w * rest) s = xor (act T j s) (act T rest (iter T w s)) := by
   induction w generalizing j s with
   | zero =>
     have : j = 0 := by simpa using hj
     subst this; simp [zero_xor]
   | succ w ih =>
-    have h1 : (j + 2 ^ (w + 1) * rest) % 2 = j % 2 := by rw [Nat.pow_succ]; omega
-    have h2 : (j + 2 ^ (w + 1) * rest) / 2 = j / 2 + 2 ^ w * rest := by
-      rw [Nat.pow_succ, Nat.mul_comm (2 ^ w) 2, Nat.mul_assoc]; omega
+    have h0 : 2 ^ (w + 1) * rest = 2 * (2 ^ w * rest) := by
+      rw [Nat.pow_succ, Nat.mul_comm (2 ^ w) 2, Nat.mul_assoc]
+    have h1 : (j + 2 ^ (w + 1) * rest) % 2 = j % 2 := by rw [h0]; omega
+    have h2 : (j + 2 ^ (w + 1) * rest) / 2 = j / 2 + 2 ^ w * rest := by rw [h0]; omega
     have h3 : j / 2 < 2 ^ w := by rw [Nat.pow_succ] at hj; omega
     rw [act_eq, h1, h2, ih _ h3, act_eq T j s, xor_assoc, iter_succ']
 
@@ -236,6 +237,7 @@ theorem powx_succ (P n k e r : Nat) :
 structure PolyMod {σ : Type} [XorSpace σ] (T : σ → σ) (P n : Nat) : Prop where
   add : IsAdd T
   annih : ∀ s, act T P s = zero
+  npos : 0 < n
   lo : 2 ^ n ≤ P
   hi : P < 2 ^ (n + 1)
 
@@ -294,7 +296,7 @@ theorem mulmod_spec (c : PolyMod T P n) : ∀ (k a b r : Nat), a < 2 ^ n → b <
     have hr' : r ^^^ a * (b % 2) < 2 ^ n := by
       apply Nat.xor_lt_two_pow hr
       have : b % 2 = 0 ∨ b % 2 = 1 := by omega
-      rcases this with h | h <;> rw [h] <;> simp [ha]
+      rcases this with h | h <;> rw [h] <;> simp [ha, Nat.two_pow_pos]
     obtain ⟨h1, h2⟩ := ih (mulx P n a) (b / 2) (r ^^^ a * (b % 2)) (c.mulx_lt ha) hb2 hr'
     rw [mulmod_succ]
     refine ⟨h1, fun s => ?_⟩
@@ -330,7 +332,7 @@ theorem powx_spec (c : PolyMod T P n) : ∀ (k e r m : Nat), r < 2 ^ n →
         (mulx P n (mulmod P n n r r 0) ^^^ mulmod P n n r r 0) * ((e >>> k) % 2) < 2 ^ n := by
       apply Nat.xor_lt_two_pow hsq
       rcases hb01 with hb | hb <;> rw [hb]
-      · simp
+      · simp [Nat.two_pow_pos]
       · rw [Nat.mul_one]; exact Nat.xor_lt_two_pow hmx hsq
     have hact : ∀ s, act T (mulmod P n n r r 0 ^^^
         (mulx P n (mulmod P n n r r 0) ^^^ mulmod P n n r r 0) * ((e >>> k) % 2)) s =
@@ -355,20 +357,12 @@ theorem powx_spec (c : PolyMod T P n) : ∀ (k e r m : Nat), r < 2 ^ n →
 /-- Soundness of `powx`: under `act T P = 0`, the polynomial `x^e mod P` acts as `T^e`. -/
 theorem powx_act (c : PolyMod T P n) {e : Nat} (he : e < 2 ^ n) (s : σ) :
     act T (powx P n n e 1) s = iter T e s := by
-  have h1 : (1 : Nat) < 2 ^ n := by
-    have := c.lo; have := c.hi
-    rcases n with _ | n
-    · simp at *; omega
-    · rw [Nat.pow_succ]; have : 0 < 2 ^ n := Nat.pos_of_ne_zero (by simp); omega
+  have h1 : (1 : Nat) < 2 ^ n := Nat.one_lt_two_pow (by have := c.npos; omega)
   have := (c.powx_spec n e 1 0 h1 (fun s => by rw [act_one]; rfl)).2 s
   rwa [Nat.zero_mul, Nat.zero_add, Nat.mod_eq_of_lt he] at this
 
 theorem powx_lt (c : PolyMod T P n) (e : Nat) : powx P n n e 1 < 2 ^ n := by
-  have h1 : (1 : Nat) < 2 ^ n := by
-    have := c.lo; have := c.hi
-    rcases n with _ | n
-    · simp at *; omega
-    · rw [Nat.pow_succ]; have : 0 < 2 ^ n := Nat.pos_of_ne_zero (by simp); omega
+  have h1 : (1 : Nat) < 2 ^ n := Nat.one_lt_two_pow (by have := c.npos; omega)
   exact (c.powx_spec n e 1 0 h1 (fun s => by rw [act_one]; rfl)).1
 
 end PolyMod
@@ -414,18 +408,16 @@ theorem jumpWord_range' (T : σ → σ) {w : Nat} (j : BitVec w) :
     have hb : b < w := by omega
     have key := jump_bit_test j b hb
     have e1 : (j.toNat >>> b % 2 ^ (m + 1)) % 2 = (j.toNat >>> b) % 2 := by
-      rw [Nat.pow_succ]; omega
+      rw [Nat.pow_succ']; exact Nat.mod_mod_of_dvd _ (Nat.dvd_mul_right 2 _)
     have e2 : (j.toNat >>> b % 2 ^ (m + 1)) / 2 = (j.toNat >>> (b + 1)) % 2 ^ m := by
-      rw [Nat.shiftRight_succ, Nat.pow_succ]; omega
+      rw [Nat.shiftRight_succ, Nat.pow_succ', Nat.mod_mul_right_div_self]
     rw [act_eq T (j.toNat >>> b % 2 ^ (m + 1)) cur, e1, e2, iter_succ']
     by_cases h : (j.toNat >>> b) % 2 = 1
     · have h' : (j &&& (1#w <<< b)) ≠ 0#w := key.mpr h
-      simp only [h', if_true]
-      rw [ih (b + 1) _ _ (by omega), h, sel_one, xor_assoc]
+      rw [ih (b + 1) _ _ (by omega), if_pos h', h, sel_one, xor_assoc]
     · have h' : ¬ (j &&& (1#w <<< b)) ≠ 0#w := fun hh => h (key.mp hh)
       have h0 : (j.toNat >>> b) % 2 = 0 := by omega
-      simp only [h', if_false]
-      rw [ih (b + 1) _ _ (by omega), h0, sel_zero, zero_xor]
+      rw [ih (b + 1) _ _ (by omega), if_neg h', h0, sel_zero, zero_xor]
 
 theorem jumpWord_eq (T : σ → σ) {w : Nat} (j : BitVec w) (acc cur : σ) :
     jumpWord T xor j (acc, cur) = (xor acc (act T j.toNat cur), iter T w cur) := by
@@ -433,7 +425,7 @@ theorem jumpWord_eq (T : σ → σ) {w : Nat} (j : BitVec w) (acc cur : σ) :
   rw [List.range_eq_range', jumpWord_range' T j w 0 acc cur (by omega)]
   simp [Nat.mod_eq_of_lt j.isLt]
 
-theorem jumpLoop_fold {T : σ → σ} (hT : IsAdd T) {w : Nat} (words : List (BitVec w)) :
+theorem jumpLoop_fold (T : σ → σ) {w : Nat} (words : List (BitVec w)) :
     ∀ (acc cur : σ),
       words.foldl (fun p j => jumpWord T xor j p) (acc, cur) =
         (xor acc (act T (polyOfWords words) cur), iter T (w * words.length) cur) := by
@@ -441,14 +433,14 @@ theorem jumpLoop_fold {T : σ → σ} (hT : IsAdd T) {w : Nat} (words : List (Bi
   | nil => intro acc cur; simp [polyOfWords, xor_zero]
   | cons j rest ih =>
     intro acc cur
-    rw [List.foldl_cons, jumpWord_eq, ih, polyOfWords, act_append hT w _ _ j.isLt, xor_assoc,
+    rw [List.foldl_cons, jumpWord_eq, ih, polyOfWords, act_append T w _ _ j.isLt, xor_assoc,
       List.length_cons, Nat.mul_succ, iter_add]
 
 /-- The macro `impl_jump!` computes the action of the packed polynomial. -/
-theorem jumpLoop_eq_act {T : σ → σ} (hT : IsAdd T) {w : Nat} (words : List (BitVec w)) (s : σ) :
+theorem jumpLoop_eq_act (T : σ → σ) {w : Nat} (words : List (BitVec w)) (s : σ) :
     jumpLoop T xor zero words s = act T (polyOfWords words) s := by
   unfold jumpLoop
-  rw [jumpLoop_fold hT, zero_xor]
+  rw [jumpLoop_fold T, zero_xor]
 
 end jump
 
